@@ -176,6 +176,9 @@ def run(ctx, rep, tier):
         for k in lens:
             cs = [sym_char() for _ in range(k)]
             asm = [wordchar(c) for c in cs]
+            if kind == "str":
+                # a string argument is any run of characters up to the next ASCII blank or ')': every other code point belongs to it
+                asm = [z3.And(char_valid(c), c != 32, c != 10, c != 9, c != 13, c != 41, c != 39, c != 34) for c in cs]
             if kind == "perm":
                 asm += [z3.Or(*[c == ord(x) for x in "01234567ugoarwx+-=,/z"]) for c in cs]       # restrict to the interesting alphabet
             r = B.parse([kw + " "] + cs, extra_assume=asm)
